@@ -502,6 +502,32 @@ class _SplitTupleAssigns(ast.NodeTransformer):
         return node
 
 
+class _MergeFlagIfs(ast.NodeTransformer):
+    """`if C: f = True else: f = E` is (in truth value) `f = C or E`; likewise the three sibling forms.  Only for a plain name f."""
+
+    def visit_If(self, node):
+        self.generic_visit(node)
+        if len(node.body) == 1 and len(node.orelse) == 1 and all(
+                isinstance(s, ast.Assign) and len(s.targets) == 1 and isinstance(s.targets[0], ast.Name) for s in (node.body[0], node.orelse[0])) \
+                and node.body[0].targets[0].id == node.orelse[0].targets[0].id:
+            v1, v2, c = node.body[0].value, node.orelse[0].value, node.test
+            const = lambda v: v.value if isinstance(v, ast.Constant) and isinstance(v.value, bool) else None
+            neg = lambda e: e.operand if isinstance(e, ast.UnaryOp) and isinstance(e.op, ast.Not) else ast.UnaryOp(op=ast.Not(), operand=e)
+            new = None
+            if const(v1) is True and const(v2) is None:
+                new = ast.BoolOp(op=ast.Or(), values=[c, v2])
+            elif const(v1) is False and const(v2) is None:
+                new = ast.BoolOp(op=ast.And(), values=[neg(c), v2])
+            elif const(v2) is True and const(v1) is None:
+                new = ast.BoolOp(op=ast.Or(), values=[neg(c), v1])
+            elif const(v2) is False and const(v1) is None:
+                new = ast.BoolOp(op=ast.And(), values=[c, v1])
+            if new is not None and isinstance(v1 if const(v1) is None else v2, (ast.Compare, ast.BoolOp, ast.UnaryOp, ast.Name)):
+                st = ast.Assign(targets=[ast.Name(id=node.body[0].targets[0].id, ctx=ast.Store())], value=new, type_comment=None)
+                return ast.fix_missing_locations(ast.copy_location(st, node))
+        return node
+
+
 class _GuardContinue(ast.NodeTransformer):
     """in a loop body, `if C: continue` followed by the rest R of the body is `if not C: R`"""
 
@@ -677,6 +703,7 @@ def inline_project(trees, exports):
                 _SplitTupleAssigns().visit(fn_)
                 _ReduceToLoop().visit(fn_)
                 _NormaliseIfs().visit(fn_)
+                _MergeFlagIfs().visit(fn_)
                 _GuardContinue().visit(fn_)
         for st in tree.body:
             if isinstance(st, ast.FunctionDef):
